@@ -8,8 +8,9 @@ i=0
 for d in "$ROOT"/seeded/*/; do
 	id="$(basename "$d")"; prop="${id%%-*}"
 	[ -f "$d/patch.diff" ] || continue
+	pf="$d/patch.diff"; [ -f "$d/patch-rebased.diff" ] && pf="$d/patch-rebased.diff"   # re-expressed on top of a later fix: commit
 	slot=$((i % 4)); i=$((i+1))
-	( SCRATCH="/tmp/hlseedsweep$slot" RUN_REPO_TESTS=0 "$ROOT/tools/sensitivity.sh" "$d/patch.diff" "$prop" 2>&1 | sed "s/^patch.diff/$id/" >> "$LOG" ) &
+	( SCRATCH="/tmp/hlseedsweep$slot" RUN_REPO_TESTS=0 "$ROOT/tools/sensitivity.sh" "$pf" "$prop" 2>&1 | sed "s/^patch-rebased.diff/$id/; s/^patch.diff/$id/" >> "$LOG" ) &
 	if [ $((i % 4)) -eq 0 ]; then wait; fi
 done
 wait
